@@ -4,6 +4,10 @@ namespace GtModel.Gen
 /-- wall clock / randomness / uninitialised memory / environment / id() / interpreter-global / `global`
     sites in the package: (kind, file, function, expression) -/
 def nondetSites : List (String × String × String × String) := [
+  ("environment", "__main__.py", "main", "sys.argv"),
+  ("environment", "utils.py", "__enter__", "tf.NamedTemporaryFile"),
+  ("environment", "utils.py", "__exit__", "os.unlink"),
+  ("environment-import", "utils.py", "<module>", "import tempfile as tf"),
   ("global-statement", "printer.py", "_init_colorama", "_COLORAMA_INITIALIZED"),
   ("id", "bounds.py", "__lt__", "id(other)"),
   ("id", "bounds.py", "__lt__", "id(self)"),
@@ -14,7 +18,12 @@ def nondetSites : List (String × String × String × String) := [
   ("id", "fibonacci.py", "__init__", "id(key)"),
   ("id", "object_set.py", "__eq__", "id(other.obj)"),
   ("id", "object_set.py", "__eq__", "id(self.obj)"),
-  ("id", "object_set.py", "__hash__", "id(self.obj)")
+  ("id", "object_set.py", "__hash__", "id(self.obj)"),
+  ("module-state", "expressions.py", "__init__", "OPERATORS_BY_NAME[...] ="),
+  ("module-state", "formatter.py", "__init__", "FORMATTERS.append"),
+  ("module-state", "graphtage.py", "__init__", "FILETYPES_BY_MIME[...] ="),
+  ("module-state", "graphtage.py", "__init__", "FILETYPES_BY_TYPENAME[...] ="),
+  ("module-state", "printer.py", "only_ansi", "ONLY_ANSI_FUNCS.add")
 ]
 
 end GtModel.Gen
